@@ -3,5 +3,5 @@
 cd /verif
 for d in seeded/*/; do
   id=$(basename $d)
-  tools/seedcheck.py $id 2>&1 | grep -E "caught|missed|check-error|refusing"
+  VERIF_NOSHRINK=1 tools/seedcheck.py $id 2>&1 | grep -E "caught|missed|check-error|refusing"
 done
